@@ -894,7 +894,20 @@ func c08Conservation(r *verdict.Run, e *emu, kind string, nconn, nops int, rng *
 			cn.Timeout = 30 * time.Second
 			for i := 0; !stop.Load(); i++ {
 				atomic.AddInt64(&observations, 1)
-				switch (c + i) % 7 {
+				switch (c + i) % 9 {
+				case 7:
+					// the key count: four fixed keys, the set (there or not), and all or none of the 200 mk keys
+					v, err := cn.Do("DBSIZE")
+					if err == nil && v.Kind == ':' && v.Int != 4 && v.Int != 5 && v.Int != 204 && v.Int != 205 {
+						bad("bigviews/dbsize-sees-half-applied-command", fmt.Sprintf("DBSIZE = %d while a writer alternates MSET and UNLINK/DEL of 200 keys in single commands (must be 4, 5, 204 or 205)", v.Int), nil)
+						return
+					}
+				case 8:
+					v, err := cn.Do("KEYS", "mk*")
+					if err == nil && v.Kind == '*' && len(v.Elems) != 0 && len(v.Elems) != 200 {
+						bad("bigviews/keys-sees-half-applied-command", fmt.Sprintf("KEYS mk* listed %d keys while a writer alternates MSET and UNLINK/DEL of 200 keys in single commands (must be 0 or 200)", len(v.Elems)), nil)
+						return
+					}
 				case 5:
 					v, err := cn.Do("EXISTS", "mk000", "mk199", "mk064", "mk065")
 					if err == nil && v.Int != 0 && v.Int != 4 {
@@ -1063,7 +1076,7 @@ func c08Run(r *verdict.Run, race bool, nhist, ncons int, tag string) {
 
 func checkC08(r *verdict.Run) {
 	r.Rule = "(1) many small concurrent histories (3-6 connections x 5-10 operations on 1-3 disjoint key groups; single-key read-modify-write and multi-key commands, FLUSHDB/FLUSHALL [ASYNC|SYNC] in single-group histories; unique written values) recorded at the client boundary with one monotonic clock and checked for linearizability with porcupine against the reference model (partitioned by key group; a final single-client read of every key is part of the history); " +
-		"(2) conservation runs: N x M INCR/DECR/HINCRBY sums, APPEND tokens, unique list ids pushed/popped/moved (exactly once), SMOVE between two sets under SINTERCARD/SUNION observers, MSET tag vectors under MGET observers, MSETNX/DEL all-or-nothing, RENAME ping-pong under EXISTS observers, and atomic views of large values (two distant bytes of a 1 MiB string written by one BITFIELD, a 256 KiB value overwritten by one SETRANGE, 300 hash fields set by one HSET, a 1500-element list that is only rotated, 200 keys written by one MSET and removed by one UNLINK/DEL, 300 members added by one SADD and removed by one SREM) under BITCOUNT/BITFIELD_RO/GET/HVALS/LRANGE/EXISTS/SCARD observers, and the same counters/sets/lists/hashes in four databases at once (per database: INCR replies a permutation of 1..N, nothing lost, DBSIZE exact; this is the only place where commands really run in parallel, one lock per database); yields are injected before/after the data store lock. distinct = overlapping command pairs actually observed + conservation kinds"
+		"(2) conservation runs: N x M INCR/DECR/HINCRBY sums, APPEND tokens, unique list ids pushed/popped/moved (exactly once), SMOVE between two sets under SINTERCARD/SUNION observers, MSET tag vectors under MGET observers, MSETNX/DEL all-or-nothing, RENAME ping-pong under EXISTS observers, and atomic views of large values (two distant bytes of a 1 MiB string written by one BITFIELD, a 256 KiB value overwritten by one SETRANGE, 300 hash fields set by one HSET, a 1500-element list that is only rotated, 200 keys written by one MSET and removed by one UNLINK/DEL, 300 members added by one SADD and removed by one SREM) under BITCOUNT/BITFIELD_RO/GET/HVALS/LRANGE/EXISTS/SCARD/DBSIZE/KEYS observers, and the same counters/sets/lists/hashes in four databases at once (per database: INCR replies a permutation of 1..N, nothing lost, DBSIZE exact; this is the only place where commands really run in parallel, one lock per database); yields are injected before/after the data store lock. distinct = overlapping command pairs actually observed + conservation kinds"
 	c08Run(r, false, tierPick(r, 300, 10000), tierPick(r, 8, 64), "plain")
 	if r.Tier == "thorough" {
 		c08Run(r, true, 300, 16, "race-build")
